@@ -1517,3 +1517,175 @@ func checkInsertCopies(c *Ctx, rule string) {
 		r.OK(rule, "(*core.Line).Insert:stores", p.Pos(IN.Pos()), fmt.Sprintf("%d store(s) through the receiver, none of the parameter slice itself", n))
 	}
 }
+
+// checkIsearchLiteralFallback: C09.invalid-regex-searched. The incremental
+// search filters the candidates (history lines) with the search text compiled
+// as a regular expression; nil means "no filter".
+func checkIsearchLiteralFallback(c *Ctx, rule string) {
+	p, r := c.P, c.R
+	r.Rule(rule, "K1", "in (*completion.Engine).updateIncrementalSearch, when the search text does not compile as a regular expression, the matcher is still given a value (the text quoted) before the candidates are regenerated and filtered: a nil matcher filters nothing, and the first history line is put in the buffer although it does not contain the text", 1)
+	UI := p.Func("(*completion.Engine).updateIncrementalSearch")
+	if UI == nil {
+		r.Unk(rule, "(*completion.Engine).updateIncrementalSearch", "-", "anchor not found")
+		return
+	}
+	r.Fn(fnName(UI))
+	n := 0
+	for _, b := range UI.Blocks {
+		iff, ok := b.Instrs[len(b.Instrs)-1].(*ssa.If)
+		if !ok {
+			continue
+		}
+		v, trueMeansNil, isNil := nilCmp(iff.Cond)
+		if !isNil {
+			continue
+		}
+		// err of regexp.Compile
+		ex, ok := v.(*ssa.Extract)
+		if !ok || ex.Index != 1 {
+			continue
+		}
+		cl, ok := ex.Tuple.(*ssa.Call)
+		if !ok || calleeName(cl) != "regexp.Compile" {
+			continue
+		}
+		n++
+		errEdge := b.Succs[0]
+		if trueMeansNil {
+			errEdge = b.Succs[1]
+		}
+		isSet := func(x ssa.Instruction) bool {
+			st, ok := isFieldStore(x, "completion.Engine", "IsearchRegex")
+			if !ok || isNilConst(st.Val) {
+				return false
+			}
+			// not the (nil) result of the failed compile itself
+			if e2, ok := st.Val.(*ssa.Extract); ok && e2.Tuple == ssa.Value(cl) {
+				return false
+			}
+			return true
+		}
+		isFilter := func(x ssa.Instruction) bool {
+			return isCallTo(x, "(*completion.Engine).GenerateWith", "(*completion.group).updateIsearch")
+		}
+		w := pathAvoiding(UI, errEdge.Instrs[0], isFilter, isSet)
+		if isSet(errEdge.Instrs[0]) {
+			w = nil
+		}
+		pos := p.IPos(iff)
+		r.Check(w == nil, rule, fmt.Sprintf("(*completion.Engine).updateIncrementalSearch:compile-error#%d", n), pos, "the matcher is set before the candidates are filtered", "when the search text is not a valid regular expression the candidates are regenerated with a nil matcher: nothing is filtered and a history line that does not contain the text is inserted")
+	}
+	if n == 0 {
+		r.Unk(rule, "(*completion.Engine).updateIncrementalSearch:regexp.Compile", p.Pos(UI.Pos()), "no test of regexp.Compile's error: anchor changed")
+	}
+}
+
+// checkEndOfHistory: C09.end-of-history-past-newest.
+func checkEndOfHistory(c *Ctx, rule string) {
+	p, r := c.P, c.R
+	r.Rule(rule, "K3", "end-of-history walks down by more than the number of entries (Walk(-Len() - k), k >= 1): Sources.Walk stops on the line being entered, and restores it, only when the move would pass the newest entry — a move of Len()-1 from the oldest entry stops on the newest entry instead", 1)
+	EH := p.Func("(*readline.Shell).endOfHistory")
+	if EH == nil {
+		r.Unk(rule, "(*readline.Shell).endOfHistory", "-", "anchor not found")
+		return
+	}
+	r.Fn(fnName(EH))
+	n := 0
+	isLen := func(v ssa.Value) bool {
+		cl, ok := v.(*ssa.Call)
+		return ok && cl.Call.IsInvoke() && cl.Call.Method.Name() == "Len"
+	}
+	for i, w := range callsTo(EH, false, "(*history.Sources).Walk") {
+		n++
+		arg := w.Common().Args[1]
+		okArg := false
+		if bo, ok := arg.(*ssa.BinOp); ok && bo.Op == token.SUB {
+			if k, isK := constInt(bo.Y); isK && k >= 1 {
+				if neg, ok := bo.X.(*ssa.UnOp); ok && neg.Op == token.SUB && isLen(neg.X) {
+					okArg = true
+				}
+			}
+		}
+		r.Check(okArg, rule, fmt.Sprintf("(*readline.Shell).endOfHistory:Walk#%d", i), p.IPos(w.(ssa.Instruction)), "Walk(-Len() - k), k >= 1", "end-of-history does not walk down past the newest entry from every position: from the oldest entry it stops on a history line instead of the line being entered")
+	}
+	if n == 0 {
+		r.Unk(rule, "(*readline.Shell).endOfHistory:Walk", p.Pos(EH.Pos()), "no Walk call: anchor changed")
+	}
+}
+
+// checkDoubledOperatorCancels: C17.doubled-operator-cancels (also run for C06).
+// Sibling agreement: a vi operator called while it is itself the pending one
+// (dd, cc, yy, gugu, gUgU) works on the whole line and is done: it removes
+// itself from the pending operators.
+func checkDoubledOperatorCancels(c *Ctx, rule string) {
+	p, r := c.P, c.R
+	r.Rule(rule, "K5", "every command of the root package with a branch taken when it is itself the pending operator (Keymap.IsPending(): dd, cc, yy, gugu, gUgU) calls Keymap.CancelPending() in that branch, like its siblings: left pending, the operator is applied to the next motions — movements then change the text, and the next operator does nothing", 4)
+	n := 0
+	for _, f := range p.RepoFuncs {
+		if len(f.Blocks) == 0 || f.Pkg == nil || f.Pkg.Pkg.Path() != modPath {
+			continue
+		}
+		for _, b := range f.Blocks {
+			iff, ok := b.Instrs[len(b.Instrs)-1].(*ssa.If)
+			if !ok || !isCallNamed(iff.Cond, "(*keymap.Engine).IsPending") {
+				continue
+			}
+			n++
+			r.Fn(fnName(f))
+			t := b.Succs[0]
+			// CancelPending on every path from the branch to the function's exit
+			w := pathAvoiding(f, t.Instrs[0], func(x ssa.Instruction) bool { _, isRet := x.(*ssa.Return); return isRet }, func(x ssa.Instruction) bool { return isCallTo(x, "(*keymap.Engine).CancelPending") })
+			if isCallTo(t.Instrs[0], "(*keymap.Engine).CancelPending") {
+				w = nil
+			}
+			r.Check(w == nil, rule, fnName(f)+":pending-branch", p.IPos(iff), "calls CancelPending", "the doubled-operator branch does not remove the operator from the pending ones (its siblings do): the local keymap stays vi-opp and the operator runs again on the next motion")
+		}
+	}
+	if n == 0 {
+		r.Unk(rule, "IsPending branches", "-", "none found: anchor changed")
+	}
+}
+
+// checkSuggestionNotUnderOperator: C17.suggestion-not-as-motion.
+func checkSuggestionNotUnderOperator(c *Ctx, rule string) {
+	p, r := c.P, c.R
+	r.Rule(rule, "K4", "the two places where a vi movement takes text from the suggested history line (history-autosuggest) — the line write of insertAutosuggestPartial, called by vi-forward-word, and the autosuggestAccept of vi-forward-char — are under the test that the local keymap is not vi-opp: as the motion of an operator the movement only gives a range, and a yank must leave the buffer unchanged", 2)
+	notOpp := func(f *ssa.Function, in ssa.Instruction, bf FactMap) bool {
+		for fc := range factsAt(bf, in) {
+			rel, ok := relOf(fc.Cond, fc.Val)
+			if !ok || rel.Op != token.NEQ {
+				continue
+			}
+			isLocal := dependsOn(rel.X, func(v ssa.Value) bool { return isCallNamed(v, "(*keymap.Engine).Local") })
+			s, isS := constString(stripConv(rel.Y))
+			if isLocal && isS && s == "vi-opp" {
+				return true
+			}
+		}
+		return false
+	}
+	n := 0
+	if IA := p.Func("(*readline.Shell).insertAutosuggestPartial"); IA != nil {
+		r.Fn(fnName(IA))
+		bf := blockFacts(IA)
+		for i, w := range callsTo(IA, false, "(*core.Line).Insert", "(*core.Line).InsertBetween", "(*core.Line).Set") {
+			n++
+			r.Check(notOpp(IA, w.(ssa.Instruction), bf), rule, fmt.Sprintf("(*readline.Shell).insertAutosuggestPartial:write#%d", i), p.IPos(w.(ssa.Instruction)), "under Local() != vi-opp", "the suggested word is inserted also when the movement is the motion of an operator: yw changes the buffer")
+		}
+	}
+	for _, fn := range []string{"(*readline.Shell).viForwardChar", "(*readline.Shell).viForwardWord", "(*readline.Shell).viForwardBlankWord", "(*readline.Shell).viForwardWordEnd"} {
+		f := p.Func(fn)
+		if f == nil {
+			continue
+		}
+		bf := blockFacts(f)
+		for i, w := range callsTo(f, false, "(*readline.Shell).autosuggestAccept") {
+			n++
+			r.Fn(fn)
+			r.Check(notOpp(f, w.(ssa.Instruction), bf), rule, fmt.Sprintf("%s:autosuggestAccept#%d", fn, i), p.IPos(w.(ssa.Instruction)), "under Local() != vi-opp", "the suggested line is accepted also when the movement is the motion of an operator: yl changes the buffer")
+		}
+	}
+	if n == 0 {
+		r.Unk(rule, "suggestion sites", "-", "none found: anchor changed")
+	}
+}
